@@ -493,6 +493,8 @@ type Contract struct {
 	EMatch      bool // wrap element index sums in ix() for arithmetic-free triggers
 	Extern      bool // contract of a function outside the package of the file
 	Unreachable map[int]bool // return sites (ordinals) known to be dead code
+	DynMod      []SExpr // assumed modifies set of calls through function values (callbacks)
+	HasDynMod   bool
 }
 
 type SpecFunc struct {
@@ -524,7 +526,7 @@ type GhostDecl struct {
 
 type Guarded struct {
 	Pkg    string
-	Type   string
+	Type   string // named struct type, or "var <name>" for a package-level variable of struct type
 	Mu     string
 	Fields []string
 }
@@ -548,7 +550,7 @@ type SpecFile struct {
 var topKeywords = map[string]bool{"global": true, "spec": true, "ghost": true, "func": true, "lemma": true, "iface": true, "guarded": true, "level": true, "extern": true}
 var clauseKeywords = map[string]bool{"safe": true, "inline": true, "pure": true, "props": true, "requires": true, "ensures": true,
 	"modifies": true, "invariant": true, "loopmodifies": true, "assume": true, "assert": true, "trusted": true, "reads": true,
-	"fresh": true, "ghost": true, "why": true, "nooverflow": true, "witness": true, "uses": true, "ematch": true, "unreachable": true}
+	"fresh": true, "ghost": true, "why": true, "nooverflow": true, "witness": true, "uses": true, "ematch": true, "unreachable": true, "dyncall": true}
 
 // parseSpecText parses the //@ lines of a contract file.  pkg is the
 // package path the file belongs to ("" for the trusted table).
@@ -700,8 +702,15 @@ func parseSpecText(pkg, file, text string) (*SpecFile, error) {
 			case "guarded":
 				// guarded T.mu: f1 f2
 				i := strings.Index(s.rest, ":")
-				tn := strings.SplitN(strings.TrimSpace(s.rest[:i]), ".", 2)
-				sf.Guarded = append(sf.Guarded, Guarded{Pkg: pkg, Type: tn[0], Mu: tn[1], Fields: strings.Fields(s.rest[i+1:])})
+				head := strings.TrimSpace(s.rest[:i])
+				isVar := strings.HasPrefix(head, "var ")
+				head = strings.TrimPrefix(head, "var ")
+				tn := strings.SplitN(head, ".", 2)
+				ty := tn[0]
+				if isVar {
+					ty = "var " + ty
+				}
+				sf.Guarded = append(sf.Guarded, Guarded{Pkg: pkg, Type: ty, Mu: tn[1], Fields: strings.Fields(s.rest[i+1:])})
 			case "level":
 			}
 			continue
@@ -743,6 +752,19 @@ func parseSpecText(pkg, file, text string) (*SpecFile, error) {
 			cur.IntOverflow = true
 		case "ematch":
 			cur.EMatch = true
+		case "dyncall":
+			// dyncall modifies <designators>|nothing: assumed effect of calls through function values
+			rest := strings.TrimSpace(strings.TrimPrefix(strings.TrimSpace(s.rest), "modifies"))
+			cur.HasDynMod = true
+			if rest != "nothing" {
+				for _, part := range splitTop(rest) {
+					e, err := parseExpr(part)
+					if err != nil {
+						return nil, fail(s.n, "%v", err)
+					}
+					cur.DynMod = append(cur.DynMod, e)
+				}
+			}
 		case "unreachable":
 			// unreachable ret N [ret M ...]: dead return sites (no reachability canary)
 			if cur.Unreachable == nil {
